@@ -29,7 +29,7 @@ open PP
 /-- a curve of stored values of type `ty` that is valid at `t = 0` and moves with tangent `τ` -/
 def CurveOK (ty : Ty) (γ : ℝ → DVec ℝ) (τ : DVec ℝ) : Prop :=
   match ty with
-  | .G g => GTangent g γ τ ∧ UnitQ g (γ 0) ∧ ScaleNZ g (γ 0) ∧ τ.length = g.adim
+  | .G g => GTangent g γ τ ∧ UnitQ g (γ 0) ∧ ScalePos g (γ 0) ∧ τ.length = g.adim
   | .V n => LCurve n γ τ ∧ (∀ t, (γ t).length = n) ∧ τ.length = n
 
 /-- offset of the quaternion block in the storage of a group element -/
@@ -57,6 +57,14 @@ theorem scaleNZ_mulF (g : Grp) (X Y : DVec ℝ) (hX : ScaleNZ g X) (hY : ScaleNZ
 
 theorem scaleNZ_invF (g : Grp) (X : DVec ℝ) (hX : ScaleNZ g X) : ScaleNZ g (invF g X) := by
   cases g <;> simp only [ScaleNZ] at hX ⊢ <;>
+    simp [invF, RxSO3Inv, Sim3Inv, RxSO3.toList, Sim3.toList, Quat.toList, Vec3.toList, toRx, toSim, hX]
+
+theorem scalePos_mulF (g : Grp) (X Y : DVec ℝ) (hX : ScalePos g X) (hY : ScalePos g Y) : ScalePos g (mulF g X Y) := by
+  cases g <;> simp only [ScalePos] at hX hY ⊢ <;>
+    simp [mulF, RxSO3Mul, Sim3Mul, RxSO3.toList, Sim3.toList, Quat.toList, Vec3.toList, toRx, toSim, hX, hY, mul_pos]
+
+theorem scalePos_invF (g : Grp) (X : DVec ℝ) (hX : ScalePos g X) : ScalePos g (invF g X) := by
+  cases g <;> simp only [ScalePos] at hX ⊢ <;>
     simp [invF, RxSO3Inv, Sim3Inv, RxSO3.toList, Sim3.toList, Quat.toList, Vec3.toList, toRx, toSim, hX]
 
 /-! ## the local lemmas for lists of the right length (all groups at once) -/
@@ -235,7 +243,7 @@ def Prog.algebraic : Prog → Bool
   | .bin o _ p q => (match o with | .Jinvp => false | _ => true) && p.algebraic && q.algebraic
 
 theorem curveOK_G {g : Grp} {γ : ℝ → DVec ℝ} {τ : DVec ℝ} :
-    CurveOK (.G g) γ τ ↔ (GTangent g γ τ ∧ UnitQ g (γ 0) ∧ ScaleNZ g (γ 0) ∧ τ.length = g.adim) := Iff.rfl
+    CurveOK (.G g) γ τ ↔ (GTangent g γ τ ∧ UnitQ g (γ 0) ∧ ScalePos g (γ 0) ∧ τ.length = g.adim) := Iff.rfl
 theorem curveOK_V {n : Nat} {γ : ℝ → DVec ℝ} {τ : DVec ℝ} :
     CurveOK (.V n) γ τ ↔ (LCurve n γ τ ∧ (∀ t, (γ t).length = n) ∧ τ.length = n) := Iff.rfl
 
@@ -284,9 +292,9 @@ theorem eval_tangent_of_transSpec (dJ : DJ ℝ) (eps : ℝ) (lt : List Ty) (env 
         rename_i ht; subst ht; subst hty
         obtain ⟨hX, hu, hs, hτ⟩ := curveOK_G.mp IH
         refine curveOK_G.mpr ⟨?_, ?_, ?_, ?_⟩
-        · exact inv_tangent g _ _ hτ hX hu hs
+        · exact inv_tangent g _ _ hτ hX hu (scalePos_nz hs)
         · exact unitQ_invF g _ hu
-        · exact scaleNZ_invF g _ hs
+        · exact scalePos_invF g _ hs
         · simp only [tangent, jvp1, length_dneg, length_mulVec _ (Shape_AdjMat g _)]
       | Matrix =>
         simp only [ty1] at hty
@@ -323,7 +331,7 @@ theorem eval_tangent_of_transSpec (dJ : DJ ℝ) (eps : ℝ) (lt : List Ty) (env 
           refine curveOK_G.mpr ⟨?_, ?_, ?_, ?_⟩
           · exact mul_tangent g _ _ _ _ hτ hτ' hX hY hu
           · exact unitQ_mulF g _ _ hu hu'
-          · exact scaleNZ_mulF g _ _ hs hs'
+          · exact scalePos_mulF g _ _ hs hs'
           · simp only [tangent, jvp2]
             rw [length_dadd _ _ (by rw [hτ, length_mulVec _ (Shape_AdjMat g _)]), hτ]
         | Act =>
@@ -369,7 +377,7 @@ theorem eval_tangent_of_transSpec (dJ : DJ ℝ) (eps : ℝ) (lt : List Ty) (env 
           obtain ⟨hX, hu, hs, hτ⟩ := curveOK_G.mp IHp
           obtain ⟨hA, hl, hτ'⟩ := curveOK_V.mp IHq
           refine curveOK_V.mpr ⟨?_, ?_, ?_⟩
-          · exact adjT_tangent g _ _ _ _ hτ hτ' hl hX hA hu hs
+          · exact adjT_tangent g _ _ _ _ hτ hτ' hl hX hA hu (scalePos_nz hs)
           · intro t; simp only [eval, fwd2]; exact length_adjTF g _ _
           · simp only [tangent, jvp2]
             rw [length_dadd _ _ (by rw [length_mulVec _ (Shape_AdjMat g _), length_mulVec _ (Shape_AdjMat g _)]),
@@ -596,8 +604,8 @@ theorem rxso3_Exp_nodeOK (dJ : DJ ℝ) (eps : ℝ) (heps : 0 ≤ eps) (lt : List
     · show (qt (expF .RxSO3 eps (eval eps (env 0) p))).normSq = 1
       have := so3Exp_normSq_closed eps (v3 (eval eps (env 0) p)) heps hth
       simpa [expF, rxso3Exp, RxSO3.toList, torx, qt, Quat.toList] using this
-    · show nth (expF .RxSO3 eps (eval eps (env 0) p)) 4 ≠ 0
-      simp [expF, rxso3Exp, RxSO3.toList, torx, Quat.toList, Real.exp_ne_zero]
+    · show 0 < nth (expF .RxSO3 eps (eval eps (env 0) p)) 4
+      simp [expF, rxso3Exp, RxSO3.toList, torx, Quat.toList, Real.exp_pos]
     · simp only [tangent, jvp1, length_mulVec _ (Shape_JlMat .RxSO3 eps _)]
 
 /-- local correctness of an `RxSO3` `Log` node in regime 1 -/
